@@ -8,7 +8,7 @@
     [old_flags]: the unchanged tree; [current_flags]: regenerated from ast.rs).
     What is outside the Coq statements (parser round trip, here-documents, quoting, behaviour) is
     decided on the code by execution: see props/c14.py. *)
-From BV Require Import Base.Prelude gen.C14TokTables Print.Tokenize Print.Show Print.Separation.
+From BV Require Import Base.Prelude Base.Codec gen.C14TokTables Print.Tokenize Print.Show Print.Separation.
 
 (** generic: a well-separated sequence of valid print atoms tokenizes back to its lexemes *)
 Theorem c14_tokenize_render : forall l,
